@@ -499,6 +499,22 @@ func c16Structure(c *Ctx) {
 		for _, call := range callsTo(pp, "encoding/pem.Decode") {
 			dec, _ = call.(*ssa.Call)
 		}
+		// the decoding loop in a helper that hands back the blocks and what is left of the input
+		var decHelper *ssa.Function
+		var decSite *ssa.Call
+		if dec == nil {
+			for _, call := range w.callsToDeep(pp, "encoding/pem.Decode") {
+				cv, _ := call.(*ssa.Call)
+				if cv == nil || cv.Parent() == pp {
+					continue
+				}
+				if sites := w.sitesIn(pp, cv.Parent()); len(sites) == 1 {
+					if sc, ok := sites[0].(*ssa.Call); ok && sc.Parent() == pp {
+						dec, decHelper, decSite = cv, cv.Parent(), sc
+					}
+				}
+			}
+		}
 		if dec == nil {
 			c.Bad("R5.pem", "ParsePEMCertificates|decodes PEM blocks", w.FnPos(pp), "no pem.Decode call")
 			return
@@ -510,7 +526,7 @@ func c16Structure(c *Ctx) {
 			saw0, sawRest := false, false
 			for _, e := range phi.Edges {
 				switch {
-				case w.Expr(e) == "p0":
+				case w.Expr(e) == "p0" || (decHelper != nil && w.ExprIn(pp, e) == "p0"):
 					saw0 = true
 				case e == rest:
 					sawRest = true
@@ -559,6 +575,19 @@ func c16Structure(c *Ctx) {
 			dataV := dec.Call.Args[0]
 			isData := func(v ssa.Value) bool {
 				v = throughCell(strip(v))
+				if decHelper != nil {
+					// what the helper hands back as the remainder: on every return, the value its decoder is fed with
+					ex, isEx := v.(*ssa.Extract)
+					if !isEx || ex.Tuple != ssa.Value(decSite) {
+						return false
+					}
+					for _, r := range liveReturns(decHelper) {
+						if ex.Index >= len(r.Results) || throughCell(strip(r.Results[ex.Index])) != throughCell(strip(dataV)) {
+							return false
+						}
+					}
+					return true
+				}
 				return v == throughCell(strip(dataV)) || w.Expr(v) == w.Expr(dataV)
 			}
 			for _, r := range w.MayBeNilReturns(pp) {
